@@ -108,6 +108,8 @@ LabelMatch(hl, el, sub, hlit, elit) ==
   \/ hl = el /\ hlit = elit
   \/ sub /\ ~hlit /\ ~elit /\ IsSuffixSeq(el, hl)
 
+NameEmpty(x) == x = <<>> \/ (LET p == Parse(x) IN p.ok /\ p.name = <<>>)
+
 \* how one entry relates to the host (hi = HostInfo of the host text h):
 \*  "strong"  the host is the entry / a label-wise subdomain of the dot-prefixed entry as written
 \*  "loose"   only after case folding / IDNA / trailing dot / odd port text, or the texts are identical
@@ -116,7 +118,9 @@ EntryClass(tab, h, hi, e) ==
   LET body == EntryBody(e)
       ei   == HostInfo(tab, body)
       sub  == EntrySub(e)
-      same == h # <<>> /\ (h = e \/ h = body)
+      \* the same text, or no name at all on both sides (":80" against the entry ""): a list like
+      \* that is a configuration error, nothing is claimed for it
+      same == h # <<>> /\ (h = e \/ h = body \/ (NameEmpty(h) /\ NameEmpty(body)))
   IN IF ~ei.ok THEN (IF same THEN "badsame" ELSE "bad")
      ELSE IF hi.ok /\ LabelMatch(hi.can, ei.can, sub, hi.lit, ei.lit) THEN
           (IF hi.plain /\ ei.plain /\ LabelMatch(hi.raw, ei.raw, sub, hi.lit, ei.lit) THEN "strong" ELSE "loose")
